@@ -9,7 +9,7 @@ from ..index import FuncInfo
 from ..nf import NF, Atom, Undecided, app, atoms_of, evalnf, lift, nf_equal, single_atom, subst, sym
 from ..values import NONE, Cond, ListV, NoneV, Num, ObjV, OpaqueV, SliceV, StrV, TupleV, valkey
 from .c02 import find_driver_call
-from .c07 import _arrsub, _strip, check_driver, check_generator, check_selector, check_wiring, discover_helpers, lin_set, seeded_driver_checks
+from .c07 import _arrsub, _strip, loop_cond_strict, check_driver, check_generator, check_selector, check_wiring, discover_helpers, lin_set, seeded_driver_checks
 from .common import ABSTRACT_SUMMARIES, N, Pdim, flatten, new_executor, returns, run
 from .dp import arr_of, loop_events, main_loop
 
@@ -428,7 +428,7 @@ def check_selector_c09(ctx, sel):
     ctx.check(work.init[0] == "copy" and nf_equal(work.init[1], sym("scores")), rule, "copy", sel.loc(work.node), "the working array is scores.copy()", found=work.init[0])
     cond = lp.info.get("cond")
     thr = sym("threshold")
-    okc = cond is not None and cond.t[0] == "any" and cond.t[1].t[0] == "cmp" and cond.t[1].t[1] == "<0" and nf_equal(_arrsub(cond.t[1].t[2], work.aid), thr - sym("W"))
+    okc = loop_cond_strict(cond, work.aid, thr)
     ctx.check(okc, rule, "loop-condition", sel.loc(lp.node), "rounds continue while some remaining score exceeds the threshold (strict >)", found=repr(cond))
     apps = loop_events(p, lp, "list_append")
     am = app("argmax", sym("W"))
